@@ -294,6 +294,15 @@ fn main() {
                             }
                         })
                         .collect();
+                    // the same errors on top of a large common offset (mean >> spread): one-pass
+                    // variance / sum-of-squares formulas cancel catastrophically there. Offsets are
+                    // chosen so that every value stays exactly representable in the float type.
+                    if o == 0 && (st == 1 || st == n - 1) {
+                        let off = if float == "f32" { 1024.0 } else { 67108864.0 };
+                        let t2: Vec<f64> = truth.iter().map(|v| v + off).collect();
+                        let p2: Vec<f64> = pred.iter().map(|v| v + off).collect();
+                        cases.push(Case::Regr { float: float.to_string(), pred: p2, truth: t2, perms: "gen".to_string(), forms: false });
+                    }
                     cases.push(Case::Regr { float: float.to_string(), pred, truth, perms: "gen".to_string(), forms: false });
                 }
             }
